@@ -65,6 +65,9 @@ KeepReReg(h) == CountOp(h, "remove") >= 1 /\ CountOp(h, "load") >= 2 /\ CountOp(
 (* a value is inserted under a key the reloader already knows (loaded, then removed or cleared), then a pass runs *)
 KeepGoi(h) == CountOp(h, "goi") >= 1 /\ CountOp(h, "notify") >= 1 /\ CountOp(h, "remove") + CountOp(h, "clear") >= 1
               /\ h[2].step.op = "load" /\ h[Len(h)].step.op = "hot_reload"
+(* a 'static cache from the second step on, then at least two notified batches *)
+KeepStatic(h) == Len(h) >= 3 /\ h[2].step.op = "load" /\ h[3].step.op = "enhance" /\ CountOp(h, "enhance") = 1 /\ CountOp(h, "notify") >= 2
+                 /\ h[Len(h)].step.op = "notify"
 (* some asset was actually reloaded *)
 KeepReloaded(h) == \E i \in 2..Len(h) : \E e \in h[i].snap : e.rid > 0
 
